@@ -1,5 +1,5 @@
 #!/usr/bin/env python3
-"""tools/recheck_seeds.py [-j N]: re-run, for every seeded change under seeded/, the checks that are recorded as catching it
+"""tools/recheck_seeds.py [-j N] [--only REGEX]: re-run, for every seeded change under seeded/, the checks that are recorded as catching it
 (confirm.txt) against a scratch copy of /repo with the patch applied (scratch copy of /verif, DLTYPE_REPO).  Prints one line per
 seed; exit 1 if a seed is no longer caught by any of its checks."""
 import json, os, re, shutil, subprocess, sys
@@ -49,6 +49,9 @@ def run(d: Path, root: Path) -> dict:
 
 def main() -> int:
     seeds = sorted(d for d in SEEDED.iterdir() if (d / "patch.diff").exists() and (d / "confirm.txt").exists())
+    if "--only" in sys.argv:   # --only <regex over the seed directory name>
+        rx = re.compile(sys.argv[sys.argv.index("--only") + 1])
+        seeds = [d for d in seeds if rx.search(d.name)]
     q: Queue = Queue()
     for i in range(jobs):
         q.put(prepare(i))
